@@ -158,6 +158,16 @@ namespace sim
 		m_timer_queue.erase(begin);
 	}
 
+	// the queue refers to timers by address: a timer that is moved while it
+	// is armed keeps its place (and its rank among equal expiry times)
+	void simulation::replace_timer(asio::high_resolution_timer* from
+		, asio::high_resolution_timer* to)
+	{
+		std::lock_guard<std::mutex> l(m_timer_queue_mutex);
+		auto const i = std::find(m_timer_queue.begin(), m_timer_queue.end(), from);
+		if (i != m_timer_queue.end()) *i = to;
+	}
+
 	void simulation::rebind_socket(ip::tcp::socket* prev, ip::tcp::socket* s, ip::tcp::endpoint ep)
 	{
 		auto i = m_listen_sockets.find(ep);
